@@ -361,11 +361,21 @@ class Ev:
             raise Unsupported("binary operator " + type(e.op).__name__)
         if isinstance(e, ast.Call):
             f = e.func
+            if isinstance(f, ast.Attribute) and f.attr == "is_integer" and not e.args:
+                v, g = self.expr(f.value, g)
+                if isinstance(v, PyFloat):          # float.is_integer(): False for inf and nan, never raises
+                    fin = z3.And(z3.Not(z3.fpIsInf(v.fp)), z3.Not(z3.fpIsNaN(v.fp)))
+                    return PyBool(z3.And(fin, z3.fpEQ(z3.fpRoundToIntegral(z3.RTZ(), v.fp), v.fp))), g
+                raise Unsupported("is_integer() of a non-float")
             if isinstance(f, ast.Attribute) and isinstance(f.value, ast.Name):
                 if f.value.id == "validator" and f.attr == "is_type":
                     t, g = self.expr(e.args[0], g)
                     n, g = self.expr(e.args[1], g)
-                    return PyBool(z3.BoolVal(bool(self.is_type(t, n.v)))), g
+                    try:
+                        verdict = bool(self.is_type(t, n.v))
+                    except Exception as exc:        # the real type check raised on the representative of this kind (e.g. a huge int)
+                        return PyBool(Fa), self.throw(g, T, type(exc).__name__)
+                    return PyBool(z3.BoolVal(verdict)), g
                 if f.value.id == "schema" and f.attr == "get":
                     key, g = self.expr(e.args[0], g)
                     default, g = self.expr(e.args[1], g) if len(e.args) > 1 else (Concrete(None), g)
@@ -527,7 +537,9 @@ def mk(kind, name):
 
 
 def representative(v):
-    if isinstance(v, (PyInt, PyBig)):
+    if isinstance(v, PyBig):
+        return 2 ** 1030          # a member of the kind itself: type predicates may treat huge ints differently
+    if isinstance(v, PyInt):
         return 1
     if isinstance(v, PyFloat):
         return 1.5
